@@ -847,8 +847,13 @@ def main():
     ck.oblige("correspondence C17Vote (exact rational arithmetic on the neighbours each back-end returned) vs NearestNeighborModel: %d classification votes (%d decisions), %d regression votes"
               % (vstat["votes_classification"], vstat["decisions_compared"], vstat["votes_regression"]), not vdis and (vstat["votes_classification"] > 0 or not vcases), "%d disagreements" % len(vdis))
     if OBS["tie_backends_differ"]:
-        log("[C17] observation (not a violation of the search property; see C17_vote_backend_tie_refuted): in %d of %d votes with a tie at the k-th distance the tree back-end and the brute-force back-end returned different tied points and NearestNeighborModel predicted differently; smallest example: %s"
-            % (OBS["tie_backends_differ"], OBS["tie_cases"], OBS["example"][1] if OBS["example"] else "-"))
+        # the property's last sentence ("consequently nearest-neighbour models predict identically with either back-end") fails
+        # exactly here: recorded as known finding C17-TIEK (theorem C17_vote_backend_tie_refuted); any OTHER difference between
+        # the back-ends is reported under nnmodel:backends-differ and is not covered by that entry
+        ck.violation("nnmodel:kth-distance-tie:backends-predict-differently",
+                     {"example": OBS["example"][1] if OBS["example"] else None, "tie_votes": OBS["tie_cases"], "differing": OBS["tie_backends_differ"]},
+                     "in %d of %d votes with a tie at the k-th distance the tree back-end and the brute-force back-end returned different tied points and NearestNeighborModel predicted differently; smallest example: %s"
+                     % (OBS["tie_backends_differ"], OBS["tie_cases"], OBS["example"][1] if OBS["example"] else "-"))
     ck.notes["vote_model"] = dict(vstat, ties_at_kth_distance=OBS["tie_cases"], ties_where_backends_predict_differently=OBS["tie_backends_differ"],
                                   example=(OBS["example"][1] if OBS["example"] else None), single_class_data_sets_predicting_class_1=OBS["single_class_predicts_1"],
                                   note="with a tie at the k-th distance both back-ends return valid k nearest neighbours but may pick different tied points; the prediction then differs although the reported distances are equal (theorem C17_vote_backend_tie_refuted); without such a tie C17_vote_backends_agree applies and the monitor requires equal predictions")
